@@ -67,8 +67,10 @@ func scenarios(tier string) []engine.Scenario {
 		add(classLazy, []shape{mkShape("d4/dense", 4, 0x1f), mkShape("d5/dense", 5, 0x3f), mkShape("d7/odd", 7, 0xaa)}, []int{kPolyLazy})
 	}
 	scs = append(scs, ckksScenarios(tier, shapes, bound)...)
+	scs = append(scs, historyScenarios(tier)...)
 	scs = append(scs, bignumScenarios(tier)...)
 	scs = append(scs, compositeScenarios(tier)...)
+	scs = append(scs, mod1Scenarios(tier)...)
 	return scs
 }
 
@@ -109,6 +111,14 @@ func expect(tier string) []string {
 	e = append(e, expectCKKS(tier)...)
 	for _, n := range opNames {
 		e = append(e, "composite="+n)
+	}
+	for _, l := range mod1Literals(10) {
+		e = append(e, "mod1="+l.name)
+	}
+	e = append(e, "mod1-length=2", "mod1-length=3")
+	e = append(e, "history=bgv-standard", "history=bgv-invariant", "history=ckks-monomial", "history=ckks-chebyshev[-1,1]")
+	for _, sq := range histSequences {
+		e = append(e, "history-sequence="+histSeqName(sq))
 	}
 	e = append(e, "composite=inverse.GoldschmidtDivisionNew", "composite=doc-examples", "composite-bootstrapped=yes", "composite-bootstrapped=no",
 		"bignum=Evaluate/monomial", "bignum=Evaluate/chebyshev[-3,5]", "bignum=ChangeOfBasis", "bignum=Depth", "bignum=Factorize/monomial", "bignum=Factorize/chebyshev", "bignum=ChebyshevApproximation")
